@@ -70,6 +70,7 @@ struct HashWorld : World {
         if (prop == "C14" && r.chance(1, 8) && (op.k == H_PUT || op.k == H_GET || op.k == H_REMOVE)) op.d |= r.chance(1, 2) ? NULLKEY : (op.k == H_PUT ? NULLDATA : NULLKEY);
         return op;
     }
+    bool result_is_ambiguous(const Op &op) const override { return op.k == H_CLEAR; }
     bool is_mutation(const Op &op) const override { return op.k == H_PUT || op.k == H_REMOVE || op.k == H_CLEAR; }
 
     void init(const Cfg &c) override {
@@ -194,8 +195,10 @@ struct HashWorld : World {
             std::vector<Bytes> seen; bool failed = false; int fired_seen = sim_fault_fired(), retries = 0;
             size_t guard = t->size(t) * 2 + 8;
             for (;;) {
+                void *n0 = o.name, *d0 = o.data;
                 bool more; { InSut s; more = t->getnext(t, &o, newmem); }
-                if (!more && newmem && sim_fault_fired() > fired_seen && retries < 1) { fired_seen = sim_fault_fired(); retries++; x.st.add("probe.walk_step_retried_after_enomem"); continue; }
+                if (!more && sim_fault_fired() > fired_seen) { check_cursor_ptr(x, "name", n0, o.name); check_cursor_ptr(x, "data", d0, o.data); }
+                if (!more && newmem && sim_fault_fired() > fired_seen && retries < 1) { fired_seen = sim_fault_fired(); retries++; failed = true; x.st.add("probe.walk_step_retried_after_enomem"); continue; }   // a step reported failure: so does the walk (the retry only probes that the cursor is still safe to use)
                 if (!more) { if (sim_fault_fired() > fired_seen) failed = true; break; }
                 Bytes e; Bytes k(o.name), v((const char *)o.data, o.size);
                 enc(e, k); enc(e, v);
